@@ -620,8 +620,7 @@ def check_client_first_frame(L, tier, log, samples):
                 viols.append({"key": "c03.client.answers_while_pending", "what": "recv_response completes although no frame has arrived", "model": info})
             continue
         if pending:
-            viols.append({"key": "c03.client.pending_after_event", "what": "recv_response stays pending although the frame layer answered", "model": info})
-            continue
+            raise Inconclusive("recv_response suspends again after its first frame: the continuation behind that await is not analysed")
         want_conn = None
         if letter in ("Data0", "DataN") or letter in KNOWN_BAD or letter == "Forbidden":
             want_conn = "H3_FRAME_UNEXPECTED"
